@@ -404,7 +404,9 @@ func Run(sp Spec) Obs {
 	}
 	o.Ret = Classify(ret)
 	o.Out = c.out.String()
-	o.Wire, o.Closed, o.WireErr, o.WireBad = ParseWire(c.out.Bytes(), sp.NS)
+	o.Wire, _, o.WireErr, o.WireBad = ParseWire(c.out.Bytes(), sp.NS)
+	// the closing tag is written raw, whatever the handler left open
+	o.Closed = strings.HasSuffix(strings.TrimSpace(o.Out), "</stream:stream>")
 	return o
 }
 
